@@ -117,6 +117,7 @@ def register(P):
 
     P["PROPS"]["C18"] = {
         "module": "Asts.Props.C18",
+        "extra_modules": ["Asts.Props.Glue2"],
         "runs": [{"engine": "patch", "quick": 3000, "thorough": 40000, "enum_thorough": ["edits"], "proj": proj_patch_c18, "extra_seeds": 1},
                  {"engine": "syncmig", "quick": 3000, "thorough": 40000, "proj": proj_mig, "extra_seeds": 1,
                   "clauses": ["C18.", "C08.store", "C10.", "C11.", "C13.", "C03."]},
